@@ -111,10 +111,15 @@ Record config := mkConfig {
   reset_clears : bool;    (* socket message.Reset sets m.status = nil (reached from
                              peer.getContext -> handlerCtx.clean -> input.Reset) *)
   bg_code : Z;            (* erpc.CodeBadGateway *)
-  bg_text : bytes         (* erpc.CodeText(erpc.CodeBadGateway) *)
+  bg_text : bytes;        (* erpc.CodeText(erpc.CodeBadGateway) *)
+  ctor_fresh : bool       (* every public constructor (NewStatus, NewStatusWithStack,
+                             NewStatusFromQuery, NewStatusByCodeText, status.New/FromJSON/FromQuery,
+                             Status.Copy) returns an object it allocated; false = a constructor
+                             hands out the predefined object of the requested code *)
 }.
 
-Definition cfg_safe (c : config) : bool := negb (proxy_inplace c) && negb (binder_inplace c).
+Definition cfg_safe (c : config) : bool :=
+  negb (proxy_inplace c) && negb (binder_inplace c) && ctor_fresh c.
 
 Definition deref (st : state) (p : option addr) : option status :=
   match p with Some a => get (hp st) a | None => None end.
@@ -228,6 +233,9 @@ Inductive event :=
 | EBinder (shared : option name) (errstat : status) (omsg : option bytes) (ocode : option Z)
                                         (* plugin/binder: errFunc returns the shared object [n] or a
                                            new status [errstat]; fixStatus; reply to the caller *)
+| EAppCustom (base ann : status)        (* application code (handler, plugin, client) obtains a status from a
+                                           public constructor with contents [base] and annotates it in place
+                                           (SetCode/SetMsg/SetCause) to [ann], as it may with a status it created *)
 | EInspect (i : nat).                   (* the application reads again the i-th status it was given *)
 
 Definition hold (st : state) (p : option addr) : state :=
@@ -241,6 +249,13 @@ Definition fwd_ptr (c : config) (t : table) (st : state) (f : fwd_result) : stat
   | FOk => (st, None)
   | FSent n => (st, lookup t n)
   | FObj s => let '(h, a) := alloc (hp st) s in (with_heap st h, Some a)
+  end.
+
+(* the predefined cell a non-allocating constructor would hand out for a code *)
+Fixpoint find_code_from (t : table) (k : Z) (a : addr) : option addr :=
+  match t with
+  | [] => None
+  | (_, s) :: r => if Z.eqb (st_code s) k then Some a else find_code_from r k (a + 1)
   end.
 
 Definition step (c : config) (t : table) (st : state) (e : event) : state * option status :=
@@ -278,6 +293,13 @@ Definition step (c : config) (t : table) (st : state) (e : event) : state * opti
       match p with
       | Some a => let '(st2, b) := fix_status c st1 a omsg ocode in over_wire c WQuery st2 (Some b)
       | None => (st1, None)
+      end
+  | EAppCustom base ann =>
+      let shared := if ctor_fresh c then None else find_code_from t (st_code base) 0 in
+      match shared with
+      | Some a => let h := write (hp st) a ann in (hold (with_heap st h) (Some a), get h a)
+      | None => let '(h0, a) := alloc (hp st) base in
+                let h := write h0 a ann in (hold (with_heap st h) (Some a), get h a)
       end
   | EInspect i => (st, match nth_error (held st) i with Some a => get (hp st) a | None => None end)
   end.
@@ -361,3 +383,9 @@ Definition has_prefix (p s : string) : bool := String.prefix p s.
 (* does a package still store through a receiver it did not allocate? *)
 Definition pkg_inplace (pkgdir : string) (sites : list site) : bool :=
   existsb (fun s => has_prefix pkgdir (site_file s) && negb (prov_fresh (site_prov s))) sites.
+
+(* ---- the generated constructor table (Generated/C15Sites.v constructors) ---- *)
+Definition ctor := (string * string * string * string)%type.
+Definition ctor_prov (c : ctor) : string := let '(_, _, _, p) := c in p.
+(* a public constructor may only return an object it allocated itself (or nil) *)
+Definition ctor_ok (c : ctor) : bool := prov_fresh (ctor_prov c).
